@@ -90,26 +90,61 @@ func Load(config, dir string) (*Program, error) {
 		BuildFlags: flags,
 		Tests:      false,
 	}
-	pkgs, err := packages.Load(cfg, "./...")
-	if err != nil {
-		return nil, fmt.Errorf("load %s: %v", config, err)
-	}
-	p := &Program{Config: config, Dir: dir, Fset: fset, Pkgs: map[string]*packages.Package{}, All: pkgs}
-	var errs []string
-	packages.Visit(pkgs, nil, func(pk *packages.Package) {
-		for _, e := range pk.Errors {
-			if strings.HasPrefix(pk.PkgPath, ModPath) {
-				errs = append(errs, e.Error())
+	// comparisons with the constant on the left are turned round in the text and the tree is loaded again
+	// (ConstLeftEdits); today's tree has none, so it is loaded once
+	overlay := map[string][]byte{}
+	var pkgs []*packages.Package
+	for pass := 0; ; pass++ {
+		var err error
+		pkgs, err = packages.Load(cfg, "./...")
+		if err != nil {
+			return nil, fmt.Errorf("load %s: %v", config, err)
+		}
+		var errs []string
+		packages.Visit(pkgs, nil, func(pk *packages.Package) {
+			for _, e := range pk.Errors {
+				if strings.HasPrefix(pk.PkgPath, ModPath) {
+					errs = append(errs, e.Error())
+				}
+			}
+		})
+		if len(errs) > 0 {
+			sort.Strings(errs)
+			if len(errs) > 10 {
+				errs = errs[:10]
+			}
+			return nil, fmt.Errorf("load %s: type errors:\n  %s", config, strings.Join(errs, "\n  "))
+		}
+		if pass == 4 {
+			break
+		}
+		edited := 0
+		for _, pk := range pkgs {
+			if !strings.HasPrefix(pk.PkgPath, ModPath) {
+				continue
+			}
+			ed, err := ConstLeftEdits(fset, pk.TypesInfo, pk.Syntax, func(name string) ([]byte, error) {
+				if b, ok := overlay[name]; ok {
+					return b, nil
+				}
+				return os.ReadFile(name)
+			})
+			if err != nil {
+				return nil, fmt.Errorf("load %s: %v", config, err)
+			}
+			for name, b := range ed {
+				overlay[name] = b
+				edited++
 			}
 		}
-	})
-	if len(errs) > 0 {
-		sort.Strings(errs)
-		if len(errs) > 10 {
-			errs = errs[:10]
+		if edited == 0 {
+			break
 		}
-		return nil, fmt.Errorf("load %s: type errors:\n  %s", config, strings.Join(errs, "\n  "))
+		fset = token.NewFileSet()
+		cfg.Fset = fset
+		cfg.Overlay = overlay
 	}
+	p := &Program{Config: config, Dir: dir, Fset: fset, Pkgs: map[string]*packages.Package{}, All: pkgs}
 	for _, pk := range pkgs {
 		p.Pkgs[pk.PkgPath] = pk
 		if strings.HasPrefix(pk.PkgPath, ModPath) {
